@@ -25,8 +25,13 @@ namespace Adaptix.Default
 
 /-! ## Python values -/
 
-/-- The value grammar of defaults.  `float` travels as `float.hex()` text
-    (`"nan"`, `"inf"`, `"-inf"` for the specials).  `builtin n` is the object
+/-- a Python float: the three specials, or a finite value as `float.hex()` text -/
+inductive PyFloat where
+  | nan | inf | negInf
+  | finite (hex : String)
+  deriving Repr, Inhabited, DecidableEq
+
+/-- The value grammar of defaults.  A finite `float` travels as its `float.hex()` text.  `builtin n` is the object
     `builtins.n` other than `None/True/False` (canonical alias name).  `cls n`
     is a class object that is not in `builtins` (`NoneType`, `Decimal`, an enum
     class …).  `opaque cls id eqInt hashable` is any other object (Decimal,
@@ -37,7 +42,7 @@ inductive Val where
   | none
   | bool (b : Bool)
   | int (i : Int)
-  | float (hex : String)
+  | float (f : PyFloat)
   | str (s : String)
   | bytes (bs : List Nat)
   | bytearray (bs : List Nat)
@@ -70,13 +75,10 @@ def Val.typeOf : Val → Val
   | .dict _ => .builtin "dict"
   | .slice .. => .builtin "slice"
   | .range .. => .builtin "range"
-  | .builtin "Ellipsis" => .cls "ellipsis"
-  | .builtin "NotImplemented" => .cls "NotImplementedType"
-  | .builtin _ => .cls "type-or-builtin-function"   -- never compared with a builtin type below
+  | .builtin _ => .cls "<type of a builtins object>"   -- ellipsis / type / builtin_function_or_method …:
+                                                       -- one token, never equal to a builtin type name
   | .cls _ => .builtin "type"
   | .opaque c _ _ _ => .cls c
-
-def floatIsSpecial (hex : String) : Bool := hex == "nan" || hex == "inf" || hex == "-inf"
 
 /-- the integer a *number-like* value is equal to, when it is equal to one of
     the integers that occur as keys of the tables we look up (0 and 1) or is an
@@ -84,9 +86,9 @@ def floatIsSpecial (hex : String) : Bool := hex == "nan" || hex == "inf" || hex 
 def Val.numKey : Val → Option Int
   | .bool b => some (if b then 1 else 0)
   | .int i => some i
-  | .float "0x0.0p+0" => some 0
-  | .float "-0x0.0p+0" => some 0
-  | .float "0x1.0000000000000p+0" => some 1
+  | .float (.finite "0x0.0p+0") => some 0
+  | .float (.finite "-0x0.0p+0") => some 0
+  | .float (.finite "0x1.0000000000000p+0") => some 1
   | .opaque _ _ k _ => k
   | _ => Option.none
 
@@ -132,17 +134,21 @@ def pyIs (a b : Val) : Option Bool :=
 inductive Piece where
   | ch (c : Char)
   | reprOf (v : Val)     -- the text `repr(v)`
+  | junk                 -- text that is not a `str` at all (never produced by `render`)
   deriving Repr, Inhabited
 
 abbrev Txt := List Piece
 
 def lit (cs : List Char) : Txt := cs.map Piece.ch
 
-/-- ", ".join(parts) -/
-def joinComma : List Txt → Txt
+/-- sep.join(parts) -/
+def joinWith (sep : Txt) : List Txt → Txt
   | [] => []
   | [t] => t
-  | t :: ts => t ++ lit [',', ' '] ++ joinComma ts
+  | t :: ts => t ++ sep ++ joinWith sep ts
+
+/-- ", ".join(parts) -/
+def joinComma (ts : List Txt) : Txt := joinWith (lit [',', ' ']) ts
 
 /-- The expression fragment the literal renderer can emit. -/
 inductive PyExpr where
@@ -183,7 +189,7 @@ end
     by the harness on every case). -/
 def Val.atomOk : Val → Bool
   | .int _ | .str _ | .bytes _ | .bytearray _ => true
-  | .float h => !floatIsSpecial h
+  | .float (.finite _) => true
   | _ => false
 
 /-- what evaluation yields when the text is not a faithful literal -/
@@ -194,20 +200,25 @@ def asIntVal : Val → Option Int
   | _ => Option.none
 
 /-- Python's builtins namespace as far as the renderer uses it: name ↦ object. -/
-abbrev Builtins := List (String × Val)
+abbrev Builtins := List (List Char × Val)
+
+def lookupName (n : List Char) : List (List Char × Val) → Option Val
+  | [] => Option.none
+  | (k, a) :: rest => if k == n then some a else lookupName n rest
 
 mutual
 /-- Evaluation of the emitted expression in a module whose globals do not
     shadow builtins (`bi` = the interpreter's `builtins` namespace). -/
 def PyExpr.eval (bi : Builtins) : PyExpr → Val
   | .atom v => if v.atomOk then v else garbage
-  | .name n => match bi.lookup (String.ofList n) with
+  | .name n => match lookupName n bi with
       | some v => v
       | Option.none => garbage
   | .list es => .list (evalL bi es)
   | .tuple es => .tuple (evalL bi es)
   | .paren e => e.eval bi
-  | .set es => .set (evalL bi es)
+  | .set [] => .dict []                  -- `{}` is a dict display
+  | .set (e :: es) => .set (evalL bi (e :: es))
   | .dict kvs => .dict (evalKV bi kvs)
   | .call f args =>
     match String.ofList f, evalL bi args with
@@ -240,7 +251,7 @@ inductive Same : Val → Val → Prop where
   | none : Same .none .none
   | bool (b) : Same (.bool b) (.bool b)
   | int (i) : Same (.int i) (.int i)
-  | float (h) : h ≠ "nan" → Same (.float h) (.float h)
+  | float (f) : f ≠ .nan → Same (.float f) (.float f)
   | str (s) : Same (.str s) (.str s)
   | bytes (b) : Same (.bytes b) (.bytes b)
   | bytearray (b) : Same (.bytearray b) (.bytearray b)
